@@ -192,6 +192,7 @@ def build_specs(tier: str):
         wide.extend(families.batch_specs(starts, families.TRIVIA[tv] + HELPERS, families.inputs(sigma, L), "zero", f"explicit-trivia({tv})"))
     wide.extend(families.extra_specs("zero", tier))
     wide.extend(families.skip_specs("zero", tier))
+    wide.extend(families.metachar_specs("zero", tier))
     names = []
     ins = families.inputs("ab1 #\t\n", 3) + families.inputs("ab1", 4)[40:]
     for entry in NAME_GRAMMARS:
@@ -248,7 +249,7 @@ def run(tier: str) -> int:
                 "(sc = _{ \"a\" | \"b\" }, ss = _{ n ~ \"b\" }) with all unary operators and ~ |, x trivia configuration x start modifier, plus grammars with a user rule named SKIP, tagged groups and built-ins; "
                 "optimizer configurations: the DEFAULT_OPTIMIZER object, the default pipeline, the pipeline applied twice, each of the 5 exported passes alone (these 8 also through generate()), "
                 "every sequence of passes of length 2 and 3 (150) and all 120 permutations of the five (interpreted). Each (chunk, configuration) runs in its own forked child, baseline first. "
-                "Oracle: same success/failure and same tree (incl. tags) as optimizer=None; construction must not raise. Non-trivial: the baseline returned at least one pair" + families.EXTRA_RULE_TEXT + families.SKIP_RULE_TEXT,
+                "Oracle: same success/failure and same tree (incl. tags) as optimizer=None; construction must not raise. Non-trivial: the baseline returned at least one pair" + families.EXTRA_RULE_TEXT + families.SKIP_RULE_TEXT + families.META_RULE_TEXT,
         "samples": [{"grammar": s.text[:400], "start_rules": list(s.starts)[:5], "n_inputs": len(s.inputs), "family": s.family} for s in common.pick_samples(wide + deep, 3)] + [{"configurations_example": list(all_cfg)[:12]}],
         "exhaustive": True,
         "bounds": {"wide": [{"n": r[0], "trivia": list(r[1]), "mods": list(r[2]), "max_inputs": r[3], "configurations": len(main_cfg)} for r in b["wide"]],
